@@ -242,10 +242,14 @@ func (s *Sorts) structSort(t types.Type, u *types.Struct) string {
 	for i := 0; i < u.NumFields(); i++ {
 		f := u.Field(i)
 		fs := s.SortOf(f.Type())
-		si.fields = append(si.fields, f.Name())
+		fname := f.Name()
+		if fname == "_" {
+			fname = fmt.Sprintf("_blank%d", i)
+		}
+		si.fields = append(si.fields, fname)
 		si.fsorts = append(si.fsorts, fs)
 		si.ftypes = append(si.ftypes, f.Type())
-		parts = append(parts, fmt.Sprintf("(%s.%s %s)", srt, f.Name(), fs))
+		parts = append(parts, fmt.Sprintf("(%s.%s %s)", srt, fname, fs))
 	}
 	if len(parts) == 0 {
 		parts = append(parts, fmt.Sprintf("(%s.__unit Int)", srt))
